@@ -311,7 +311,13 @@ pub struct TableHandler {
 }
 
 pub const TABLE_REGIONS: [&str; 3] = ["ma", "mb", "mc"];
-pub const TABLE_FRAMES: [&str; 3] = ["fa", "fb", "fc"];
+/// Table frames 0 and 1 are equal up to qubit ORDER (`0 1 "fa"`, `1 0 "fa"`): they are distinct frames.
+pub const TABLE_FRAMES: [(&str, [u64; 2]); 3] = [("fa", [0, 1]), ("fa", [1, 0]), ("fc", [2, 3])];
+
+fn is_table_frame(f: &FrameIdentifier, i: usize) -> bool {
+    let (name, qs) = TABLE_FRAMES[i];
+    f.name == name && f.qubits == qs.iter().map(|&q| quil_rs::instruction::Qubit::Fixed(q)).collect::<Vec<_>>()
+}
 
 impl TableHandler {
     fn row(&self, instruction: &Instruction) -> Option<&Row> {
@@ -327,8 +333,8 @@ impl TableHandler {
     /// (`Ok(k)`) or a raw line (`Err(text)`: labels, jumps, …).
     pub fn program(&self, body: &[Result<usize, String>]) -> Program {
         let mut text = String::new();
-        for f in TABLE_FRAMES {
-            text.push_str(&format!("DEFFRAME 0 \"{f}\":\n    SAMPLE-RATE: 1.0\n"));
+        for (f, qs) in TABLE_FRAMES {
+            text.push_str(&format!("DEFFRAME {} {} \"{f}\":\n    SAMPLE-RATE: 1.0\n", qs[0], qs[1]));
         }
         for e in body {
             match e {
@@ -369,7 +375,7 @@ impl InstructionHandler for TableHandler {
                         .frames
                         .get_keys()
                         .into_iter()
-                        .filter(|f| ix.iter().any(|&i| f.name == TABLE_FRAMES[i]))
+                        .filter(|f| ix.iter().any(|&i| is_table_frame(f, i)))
                         .collect()
                 };
                 MatchedFrames { used: pick(used), blocked: pick(blocked) }
@@ -402,8 +408,22 @@ impl InstructionHandler for TableHandler {
 pub const REGIONS: [&str; 3] = ["a", "b", "c"];
 
 /// Frames on overlapping qubit sets: one-qubit frames on 0 and 1, a second frame on 0, a two-qubit frame.
-pub const FRAME_DEFS: [(&str, &str); 5] =
-    [("0", "x"), ("0", "y"), ("1", "x"), ("0 1", "z"), ("2", "x")];
+/// From position 5 on: frames equal up to qubit ORDER (`0 1 "z"` / `1 0 "z"`, three orders of `w`), the same name on
+/// an overlapping but different qubit set (`1 2 "z"`), a repeated qubit (`0 0 "y"`). A frame's identity is its
+/// name and its qubit LIST.
+pub const FRAME_DEFS: [(&str, &str); 11] = [
+    ("0", "x"),
+    ("0", "y"),
+    ("1", "x"),
+    ("0 1", "z"),
+    ("2", "x"),
+    ("1 0", "z"),
+    ("1 2", "z"),
+    ("0 0", "y"),
+    ("2 1 0", "w"),
+    ("0 2 1", "w"),
+    ("0 1 2", "w"),
+];
 
 pub fn frame_header(nframes: usize) -> String {
     let mut s = String::new();
@@ -418,7 +438,7 @@ fn pick_frame(rng: &mut Rng, nframes: usize) -> String {
     if rng.chance(1, 12) || nframes == 0 {
         return "3 \"u\"".to_string();
     }
-    let (q, n) = FRAME_DEFS[rng.below(nframes as u64) as usize];
+    let (q, n) = FRAME_DEFS[rng.below(nframes.min(FRAME_DEFS.len()) as u64) as usize];
     format!("{q} \"{n}\"")
 }
 
@@ -791,7 +811,14 @@ pub fn ast_program_text(rng: &mut Rng, cfg: &ProgCfg) -> String {
 /// a qubit with defined ones / DELAY, FENCE on a qubit without exact frames, × position in the block (alone,
 /// first, last, between) × whether a second qubit is used by the program.
 pub fn frame_shape_programs() -> Vec<String> {
-    let frame_sets: [&[(&str, &str)]; 7] = [
+    let frame_sets: [&[(&str, &str)]; 13] = [
+        // frames equal up to qubit order, repeated qubits, same name on overlapping sets
+        &[("0 1", "cz"), ("1 0", "cz")],
+        &[("1 0", "cz")],
+        &[("1 0", "cz"), ("0 1", "cz"), ("1 2", "cz")],
+        &[("2 1 0", "w"), ("0 2 1", "w"), ("0 1 2", "w")],
+        &[("0 0", "rf"), ("0", "rf")],
+        &[("1 0", "cz"), ("1 0", "u"), ("0 1", "u")],
         &[],
         &[("0", "x")],
         &[("0 1", "cz")],
@@ -811,6 +838,15 @@ pub fn frame_shape_programs() -> Vec<String> {
         "DELAY 0 1.0",
         "FENCE 0",
         "SWAP-PHASES 0 \"u\" 1 \"u\"",
+        "PULSE 0 1 \"cz\" flat(duration: 1.0, iq: 1.0)",
+        "PULSE 1 0 \"cz\" flat(duration: 1.0, iq: 1.0)",
+        "NONBLOCKING CAPTURE 1 0 \"cz\" flat(duration: 1.0, iq: 1.0) ro[0]",
+        "RAW-CAPTURE 0 0 \"rf\" 1.0 ro[0]",
+        "DELAY 0 1 1.0",
+        "DELAY 1 0 \"cz\" 1.0",
+        "FENCE",
+        "SWAP-PHASES 0 1 \"cz\" 1 0 \"cz\"",
+        "PULSE 2 1 0 \"w\" flat(duration: 1.0, iq: 1.0)",
     ];
     let before = ["", "MOVE ro[1] 1\n", "PULSE 0 1 \"cz\" flat(duration: 1.0, iq: 1.0)\n", "FENCE 1\n"];
     let after = ["", "MOVE ro[2] 1\n", "PULSE 0 \"x\" flat(duration: 1.0, iq: 1.0)\n", "HALT\n"];
